@@ -3,8 +3,8 @@
    extracted datatypes; no Extract Constant of ours. *)
 Require Extraction.
 Require ExtrOcamlBasic.
-From CPF Require Import Base.Bytes Scan.Cst Scan.Build Lang.Lexer Lang.Ast Lang.Parser Engine.Eval Engine.Query.
+From CPF Require Import Base.Bytes Scan.Cst Scan.Build Scan.Merge Lang.Lexer Lang.Ast Lang.Parser Engine.Eval Engine.Query.
 Extraction Language OCaml.
 Extraction "model.ml" build_file census cst_wfb cst_size shape_okb
   lex_query parse_tokens parse_query flatten_query tokens_of_query
-  expanded_condition condition results spec_results in_fragment row.
+  expanded_condition condition results spec_results in_fragment row collect get_files.
